@@ -197,6 +197,14 @@ func c26TLVs(rng *rand.Rand) []byte {
 		if rng.Intn(8) == 0 {
 			l = 200 + rng.Intn(300)
 		}
+		if rng.Intn(40) == 0 {
+			// a large TLV (an SSL certificate chain, NOOP padding): the spec allows an address+TLV block of
+			// up to 65535 bytes, far beyond any default I/O buffer (4 KiB, 16 KiB, 64 KiB boundaries)
+			l = []int{3900, 4080, 4081, 4200, 8300, 16400, 30000, 60000}[rng.Intn(8)]
+			if len(out)+l+3+216 > 65535 {
+				l = 200
+			}
+		}
 		v := make([]byte, l)
 		rng.Read(v)
 		out = append(out, types[rng.Intn(len(types))], byte(l>>8), byte(l))
@@ -396,7 +404,7 @@ func c26InfoJSON(info *ProxyInfo, err error) map[string]any {
 // leg "valid": valid headers + trailing stream
 // ---------------------------------------------------------------------------
 
-const c26RuleValid = "generated VALID headers (encoder written from the PROXY protocol spec): v1 TCP4/TCP6/UNKNOWN(with and without addresses); v2 LOCAL/PROXY x the seven legal family bytes (UNSPEC, TCP/UDP over IPv4, TCP/UDP over IPv6, UNIX stream/dgram) with 0-3 TLVs (up to 500 bytes each), followed by a trailing stream (empty, random 1..10000 bytes, a Kafka frame, something that looks like a second PROXY header, CRLFs), delivered by a net.Conn whose Read returns a prescribed chunking (whole, 1 byte at a time, (0,nil) reads, cuts exactly 1 before / at / 1 after the header end, fixed k, random; EOF alone or together with the last bytes; 1 in 8 through a real net.Pipe writer). Oracle: (a) err==nil; (b) when the header encodes IP endpoints (v1 TCP4/6, v2 PROXY INET/INET6): info non-nil, not Local, SourceIP/DestIP parse to the encoded IPs, ports equal, SourceAddr/DestAddr split into the same IP and port; (c) when it encodes none (UNKNOWN, LOCAL, UNSPEC): no address may be reported as proxied; UNIX: nothing or the socket path; (d) everything read from the wrapped conn (io.ReadAll or PRNG-sized reads) == the trailing bytes exactly; non-trivial = header crossed a read boundary and trailing bytes were non-empty"
+const c26RuleValid = "generated VALID headers (encoder written from the PROXY protocol spec): v1 TCP4/TCP6/UNKNOWN(with and without addresses); v2 LOCAL/PROXY x the seven legal family bytes (UNSPEC, TCP/UDP over IPv4, TCP/UDP over IPv6, UNIX stream/dgram) with 0-3 TLVs (mostly up to 500 bytes, 1 in 40 between 3.9 and 60 KB so that the header exceeds common buffer sizes), followed by a trailing stream (empty, random 1..10000 bytes, a Kafka frame, something that looks like a second PROXY header, CRLFs), delivered by a net.Conn whose Read returns a prescribed chunking (whole, 1 byte at a time, (0,nil) reads, cuts exactly 1 before / at / 1 after the header end, fixed k, random; EOF alone or together with the last bytes; 1 in 8 through a real net.Pipe writer). Oracle: (a) err==nil; (b) when the header encodes IP endpoints (v1 TCP4/6, v2 PROXY INET/INET6): info non-nil, not Local, SourceIP/DestIP parse to the encoded IPs, ports equal, SourceAddr/DestAddr split into the same IP and port; (c) when it encodes none (UNKNOWN, LOCAL, UNSPEC): no address may be reported as proxied; UNIX: nothing or the socket path; (d) everything read from the wrapped conn (io.ReadAll or PRNG-sized reads) == the trailing bytes exactly; non-trivial = header crossed a read boundary and trailing bytes were non-empty"
 
 // replay support: bin/check C26 --replay <witness.json> re-runs exactly one case
 // (the witness names section, case index and seed; inputs are re-derived from them).
